@@ -355,7 +355,20 @@ def accept_errors(ctx, rid):
                     if hv and norm(e) in ("%s.errno" % hv, "%s.args[0]" % hv):
                         return "ERRNO"
                     return None
-                outs = Explorer(f, atom_of=atom_of).run(hn[0], {"ERRNO": "@errno." + err}, stop=lambda x: x.id not in body)
+                ex0 = Explorer(f, atom_of=atom_of)
+                env0 = {"ERRNO": "@errno." + err}
+                # (the exploration starts in the middle of the function: locals assigned exactly once, outside the handler, from
+                # a constant expression -- `ignored = (errno.EAGAIN, ..)` hoisted out of the loop -- hold that constant)
+                for nm in sorted(set(f.locals) - set(f.params)):
+                    ss = stores_to_name(f, nm)
+                    if len(ss) == 1 and isinstance(ss[0].ast, ast.Assign) and ss[0].id not in body and len(ss[0].ast.targets) == 1 and isinstance(ss[0].ast.targets[0], ast.Name):
+                        try:
+                            v0 = ex0.ev(ss[0].ast.value, {})
+                        except Exception:
+                            continue
+                        if v0 is not UNKNOWN and isinstance(v0, (tuple, str, int, frozenset)):
+                            env0[nm] = v0
+                outs = ex0.run(hn[0], env0, stop=lambda x: x.id not in body)
                 got = set()
                 for o in outs:
                     if o.kind == "raise" or (o.kind == "stop" and o.detail.kind in ("handler", "raise")):
